@@ -104,6 +104,8 @@ TLoopOnly == /\ (Is("RunOne") \/ Is("PollBegin") \/ Is("PollEnd"))
 TInfo == (Is("Fd") \/ Is("CancelIo") \/ Is("CancelIoSkip") \/ Is("LoopExit")) /\ Skip
 TStop == Is("Stop") /\ stopped' = TRUE /\ UNCHANGED <<hs, timers, loopTid, cancelCode, pidOf, lastFire>>
 
+TRestart == Is("Restart") /\ stopped /\ stopped' = FALSE /\ UNCHANGED <<hs, timers, loopTid, cancelCode, pidOf, lastFire>>
+
 TQuiesce ==
     /\ Is("Quiesce")
     /\ ~stopped
@@ -114,7 +116,7 @@ TQuiesce ==
 TStopped == Is("Stopped") /\ stopped /\ Skip       \* after stop(): at most once only, nothing more is promised
 
 TraceInit == LInit /\ l = 1 /\ cancelCode = 0 /\ pidOf = <<>> /\ lastFire = [id |-> -1, now |-> 0]
-TraceNext == TReset \/ TLoopThread \/ TReg \/ TEnq \/ TSetTimer \/ TTimerFire \/ TCancelTimer \/ TSetIo \/ TDCancel
+TraceNext == TReset \/ TLoopThread \/ TReg \/ TEnq \/ TSetTimer \/ TTimerFire \/ TCancelTimer \/ TSetIo \/ TDCancel \/ TRestart
              \/ TDeq \/ TRun \/ TLoopOnly \/ TInfo \/ TStop \/ TQuiesce \/ TStopped
 TraceSpec == TraceInit /\ [][TraceNext]_tvars
 =============================================================================
